@@ -792,6 +792,52 @@ func EmitLayout(root *Package, rootOpts EmitOptions) Layout {
 	return l
 }
 
+// SplitDocuments turns a block-style model file into a file of several YAML documents: a `---` line is
+// put in front of each top-level definition i >= 1 for which cut(i) is true (in front of the comment and
+// blank lines that precede it, so that documentation comments stay with their definition). yardl reads
+// every document of a file into the same namespace, so this is another way of writing the same model.
+// Text that is not block style (flow style, no top-level keys) is returned unchanged.
+func SplitDocuments(text string, cut func(i int) bool) string {
+	lines := strings.SplitAfter(text, "\n")
+	isKey := func(l string) bool {
+		if l == "" {
+			return false
+		}
+		c := l[0]
+		return c != ' ' && c != '\t' && c != '#' && c != '\n' && c != '-' && c != '{' && c != '}' && c != '[' && c != ']' && strings.Contains(l, ":")
+	}
+	if len(lines) == 0 || strings.HasPrefix(strings.TrimSpace(text), "{") {
+		return text
+	}
+	var starts []int // index of the first line belonging to each top-level definition
+	for i, l := range lines {
+		if isKey(l) {
+			j := i
+			for j > 0 && (strings.HasPrefix(lines[j-1], "#") || strings.TrimSpace(lines[j-1]) == "") {
+				j--
+			}
+			starts = append(starts, j)
+		}
+	}
+	if len(starts) < 2 {
+		return text
+	}
+	cutAt := map[int]bool{}
+	for k := 1; k < len(starts); k++ {
+		if starts[k] > starts[k-1] && cut(k) {
+			cutAt[starts[k]] = true
+		}
+	}
+	var b strings.Builder
+	for i, l := range lines {
+		if cutAt[i] {
+			b.WriteString("---\n")
+		}
+		b.WriteString(l)
+	}
+	return b.String()
+}
+
 // Text returns a stable textual dump of a layout (for samples / replay files).
 func (l Layout) Text() string {
 	var dirs []string
